@@ -139,9 +139,18 @@ Definition anonymous_component_error (m : option meta) : list source :=
   match m with Some m => [Unwrapped true m] | None => [] end.
 Definition tuple_error (m : option meta) : list source :=
   match m with Some m => [Unwrapped true m] | None => [] end.
-(* program_merger.rs: duplicate definition, file id of the file being merged *)
-Definition duplicate_definition_error (file : N) (def : meta) : list source :=
-  [Known true file (m_start def) (m_end def)].
+(* program_merger.rs: duplicate definition.  First primary label: the range of the
+   later definition with the id of the file being merged.  Second primary label
+   (`if let Some((first_id, first_location)) = self.first_definition(name)`): the
+   stored parameter-list range (`get_param_location()`) of the definition recorded
+   first under that name, with the plain FileID stored next to it (`get_file_id()`:
+   the file THAT definition was merged from).  [first] = that stored pair. *)
+Definition duplicate_definition_error (file : N) (def : meta) (first : option (N * meta)) : list source :=
+  Known true file (m_start def) (m_end def) ::
+  match first with
+  | Some (first_file, params) => [Known true first_file (m_start params) (m_end params)]
+  | None => []
+  end.
 
 (* --- all modelled constructors as one type ---------------------------------- *)
 
@@ -175,7 +184,7 @@ Inductive constructor :=
 | CTupleError (m : option meta)
 | CUnclosedComment (file : N) (opener : nat)
 | CParsingError (file : N) (s e : N)
-| CDuplicateDefinition (file : N) (def : meta).
+| CDuplicateDefinition (file : N) (def : meta) (first : option (N * meta)).
 
 Definition sources_of (c : constructor) : list source :=
   match c with
@@ -208,7 +217,7 @@ Definition sources_of (c : constructor) : list source :=
   | CTupleError m => tuple_error m
   | CUnclosedComment f o => unclosed_comment_error f o
   | CParsingError f s e => parsing_error f s e
-  | CDuplicateDefinition f d => duplicate_definition_error f d
+  | CDuplicateDefinition f d fd => duplicate_definition_error f d fd
   end.
 
 (* the node metas (statement, expression, declaration, parameter list, include
@@ -222,7 +231,7 @@ Definition nodes_of (c : constructor) : list meta :=
   | CCyclomaticComplexity => []
   | CAnonymousComponentError m | CTupleError m => match m with Some m => [m] | None => [] end
   | CUnclosedComment _ _ | CParsingError _ _ _ => []
-  | CDuplicateDefinition _ d => [d]
+  | CDuplicateDefinition _ d fd => d :: match fd with Some (_, p) => [p] | None => [] end
   | CUnnecessarySignalAssignment m | CUnusedVariable m | CUnconstrainedSignal m | CUnusedSignal m
   | CUnusedParameter m | CVariableWithoutSideEffects m | CParamWithoutSideEffects m
   | CConstantBranchCondition m | CNonStrictBinaryConversion m | CBn254SpecificCircuit m
@@ -244,7 +253,7 @@ Definition parser_ranges_of (c : constructor) : list (N * N) :=
 Definition guarded_constructor (c : constructor) : bool :=
   match c with
   | CAnonymousComponentError _ | CTupleError _ | CUnclosedComment _ _ | CParsingError _ _ _
-  | CDuplicateDefinition _ _ => false
+  | CDuplicateDefinition _ _ _ => false
   | _ => true
   end.
 
@@ -297,7 +306,7 @@ Definition modelled_shapes : list (string * string * list (bool * file_shape)) :
   ("intermediate_representation/errors", "IRError.UndefinedVariableError", [(P, GGuarded)]);
   ("intermediate_representation/errors", "IRError.InvalidVariableNameError", [(P, GGuarded)]);
   ("static_single_assignment/errors", "SSAError.UndefinedVariableError", [(P, GGuarded)]);
-  ("program_library/program_merger", "Merger", [(P, GKnown)]);
+  ("program_library/program_merger", "Merger", [(P, GKnown); (P, GKnown)]);
   ("src/errors", "UnclosedCommentError", [(P, GKnown)]);
   ("src/errors", "ParsingError", [(P, GKnown)]);
   ("src/errors", "IncludeError", [(P, GGuarded)]);
